@@ -39,6 +39,10 @@ FAMILIES = {
                        cfgs=[{"unbind_route": "0", "tls": "tls"}], must=lambda b: any(e["a"] == "send" for e in b)),
     "tls-mtls": dict(consts={"Conns": '{"c1", "c2"}', "MaxReq": "1", "FrameKinds": '{"op"}', "TLSMode": '"mtls"'}, depth=5,
                      cfgs=[{"unbind_route": "0", "tls": "mtls"}], must=lambda b: any(e["a"] == "send" for e in b)),
+    # TLS sessions that end with an orderly close / a TCP reset (the close_notify cannot be written), with a bystander
+    "tls-close": dict(consts={"Conns": '{"c1", "c2"}', "MaxReq": "1", "FrameKinds": '{"op"}', "TLSMode": '"server"'}, depth=5,
+                      cfgs=[{"unbind_route": "0", "tls": "tls", "reset": "1"}, {"unbind_route": "0", "tls": "tls"}],
+                      must=lambda b: any(e["a"] == "close" for e in b) and all(e["k"] in ("valid", "nocert") for e in b if e["a"] == "dial")),
     # handler panics (recovered) on per-request goroutines and inline (StartTLS, unbind route), with a bystander connection
     "panic": dict(consts={"Conns": '{"c1", "c2"}', "MaxReq": "2", "FrameKinds": '{"op", "unbind", "starttls"}'}, depth=6, panic=True,
                   cfgs=[{"unbind_route": "1"}], must=lambda b: any(e["a"] == "panic" or e["s"] == "panic" for e in b)),
@@ -168,6 +172,8 @@ def scripted_family(run, fam, quick):
         stls = [
             [R, D("c1"), S("c1", "starttls", True), stop1, {"a": "release", "c": "c1", "i": 1}],
             [R, D("c1", "silent"), S("c1", "starttls"), stop1],
+            [R, D("c1", "silent"), S("c1", "starttls", True), stop1, {"a": "release", "c": "c1", "i": 1}],   # Stop lands before the handler starts the handshake
+            [R, D("c1", "silent"), S("c1", "starttls", True), stop1, stop2, {"a": "release", "c": "c1", "i": 1}],
             [R, D("c1"), S("c1", "starttls"), S("c1", "op", True), stop1, {"a": "release", "c": "c1", "i": 2}],
         ]
         out += [(b, {"unbind_route": "0", "tls": "starttls"}) for b in scen.scripted(run, stls, dict(consts, AllowSilent="TRUE"))]
@@ -201,6 +207,20 @@ def scripted_family(run, fam, quick):
         idle = idle[:k] + [{"a": "sleep", "c": "", "i": 2000 if quick else 12000, "k": "", "s": "", "hold": False}] + idle[k:]
         out.append((idle, {"unbind_route": "0", "tls": "starttls"}))
         return out
+    elif fam == "starttls-close":
+        # upgraded sessions that end with an orderly close / a TCP reset / Unbind, idle or with a handler running
+        R, D = {"a": "run"}, lambda c: {"a": "dial", "c": c}
+        S = lambda c, k, hold=False: {"a": "send", "c": c, "k": k, "hold": hold}
+        rel = lambda c, i: {"a": "release", "c": c, "i": i}
+        cl = lambda c: {"a": "close", "c": c}
+        scripts = [[R, D("c1"), S("c1", "starttls"), cl("c1")],
+                   [R, D("c1"), S("c1", "starttls"), S("c1", "op"), cl("c1")],
+                   [R, D("c1"), D("c2"), S("c1", "starttls"), S("c2", "starttls"), S("c1", "op", True), cl("c1"), rel("c1", 2), S("c2", "op"), cl("c2")],
+                   [R, D("c1"), S("c1", "starttls"), S("c1", "op"), S("c1", "unbind")]]
+        consts = {"Conns": '{"c1", "c2"}', "MaxReq": "3", "FrameKinds": '{"starttls", "op", "unbind"}'}
+        behs = scen.scripted(run, scripts, consts)
+        return [(b, dict(cfgv)) for b in behs for cfgv in ({"unbind_route": "0", "tls": "starttls", "reset": "1"}, {"unbind_route": "0", "tls": "starttls"},
+                                                           {"unbind_route": "1", "tls": "starttls", "reset": "1"})]
     elif fam == "starttls-inflight":
         # a request still in flight while the connection is upgraded (not something a conforming client does; exercised for C15 only)
         R, D = {"a": "run"}, lambda c: {"a": "dial", "c": c}
@@ -235,7 +255,7 @@ def scripted_family(run, fam, quick):
     return [(b, dict(cfgs[n % len(cfgs)])) for n, b in enumerate(behs)]
 
 
-SCRIPTED = {"deep", "manyconns", "ready", "stopstates", "starttls2", "starttls-inflight"}
+SCRIPTED = {"deep", "manyconns", "ready", "stopstates", "starttls2", "starttls-inflight", "starttls-close"}
 
 
 def run_families(run, names, cap):
